@@ -31,6 +31,7 @@ CFG = dict(
          "value check rejects re-proposed with a valid prepared justification of the other operators, followed by prepare and commit quorums (real RoundRobinProposer); "
          "with and without the runner's compaction; each op on real code and on the Lean model. The oracle (and `sig` on the op lines) uses the cache-free reference verifier of "
          "ssv-spec, NOT the node's VerifyByOperators, which is code under test PRODUCTION-CONFIG share: in 25–35 % of the cases (and directed ones) the node objects are the ones a real node builds — operator/validator.SetupRunners(validator.Options{…, non-nil MessageValidator}) → attester runner → QBFTController, with the production ProposerF closure, SignatureVerification flag, ssv-spec AttesterValueCheckF, default domain (injected by SetDefaultDomain) and identifier; only Timer / Network / Storage are swapped for the recorders (harness/cmd/qbft/prodcfg.go; consensus values are valid attester ConsensusData).",
-    trusted_base=["harness abstraction (sigOk computed by ssv-spec types.Signature.VerifyByOperators — the reference verifier, independent of the node's copy; roots/values interned)", "BLS / SHA-256 abstracted"],
+    trusted_base=["engine vglue -mode ncv: the oracle re-verifies certificates with herumi BLS FastAggregateVerify over spectypes.ComputeSigningRoot (not with the node's own verifier); it is outside the Lean model (glue coverage only)",
+                  "harness abstraction (sigOk computed by ssv-spec types.Signature.VerifyByOperators — the reference verifier, independent of the node's copy; roots/values interned)", "BLS / SHA-256 abstracted"],
     assumptions=["light node (fullNode=false): instances are not reloaded from storage", "the configured value check rejects the empty value"],
 )
